@@ -298,6 +298,7 @@ class G(object):
         if 'top' in features:
             q['top'] = rng.randrange(0, len(self.A) + 2)
             q['top_kw'] = rng.choice(['top', 'limit'])
+        q['bare'] = rng.random() < 0.5      # clause-level expressions written without enclosing parentheses
         return q
 
     def gen_update(self, features):
@@ -325,6 +326,7 @@ class G(object):
                 q['assign'].append([['field', 'a', j, self.assign_spelling(j)], self.e_any(2, allow_list=False)])
         if 'where' in features:
             q['where'] = self.gen_where()
+        q['bare'] = rng.random() < 0.5
         return q
 
     def assign_spelling(self, j):
